@@ -15,15 +15,15 @@ import (
 
 // Sess drives one server instance and writes one trace line per operation.
 type Sess struct {
-	prop  string
-	kind  string
-	st    *Store
-	h     http.Handler
-	vids  []string // version ids seen, in order of first appearance
-	opts  SessOpts
-	nops  int
+	prop    string
+	kind    string
+	st      *Store
+	h       http.Handler
+	vids    []string // version ids seen, in order of first appearance
+	opts    SessOpts
+	nops    int
 	verDocs int // versioning documents sent so far (every third suspension does not mention the status)
-	walks int // paginated walks so far (every third one opens with an empty marker parameter)
+	walks   int // paginated walks so far (every third one opens with an empty marker parameter)
 
 	// while capturing, operations are recorded instead of written (concurrent rounds emit them afterwards)
 	mute           bool   // dry runs: nothing is written to the trace
